@@ -101,3 +101,9 @@ Qed.
 Theorem split_edge_crossings p : crossings [mk_edge a b] p = crossings [mk_edge a m; mk_edge m b] p.
 Proof. exact (split_edge_below p). Qed.
 End Split.
+
+(** the hypotheses are satisfiable: (1,1) on the edge from (0,0) to (2,2) *)
+Example split_example :
+  let a := mkQpt 0 0 in let m := mkQpt 1 1 in let b := mkQpt 2 2 in
+  qx a < qx m /\ qx m < qx b /\ (qy m - qy a) * (qx b - qx a) == (qy b - qy a) * (qx m - qx a).
+Proof. cbn. repeat split; reflexivity. Qed.
